@@ -13,6 +13,7 @@
 -/
 import Lcapy.Spec.Cache
 import Lcapy.Proofs.CacheIso
+import Lcapy.Proofs.CachePure
 import Lcapy.Proofs.CacheAux
 set_option linter.unusedVariables false
 namespace Lcapy.C16
@@ -33,9 +34,24 @@ theorem inv_run (cfg : Config) (G : String → Bool) (hc : CfgOK cfg G) (ops : L
     Inv cfg G (run cfg World.empty ops) :=
   Cache.inv_run hc ops inv_empty hr
 
+/-- a small configuration with one slot of each of two kinds, used by the non-vacuity examples -/
+def exCfg2 : Config where
+  memoised := [("a", .cprop), ("b", .lru)]
+  cleared := ["a", "b"]
+  addInvalidates := true
+  addMultiInvalidates := true
+  removeInvalidates := true
+  initInvalidates := true
+  overrideDetaches := true
+  keepConnectedNode := true
+  deps := [("b", ["a"])]
+  reads := [("q", ["a", "b"])]
+  spawns := ["b"]
+
 /-- the invariant is not vacuous: a concrete world with live memos satisfies it after a history -/
-example : let cfg : Config := ⟨[("a", .cprop), ("b", .lru)], ["a", "b"], true, true, true, true, true, true, [("b", ["a"])], [("q", ["a", "b"])], ["b"]⟩
+example : let cfg : Config := exCfg2
     RunOK cfg World.empty [.new, .add 0 ⟨"R1", "R", ["1", "0"], "1"⟩, .query 0 "q", .add 0 ⟨"R1", "R", ["1", "2"], "5"⟩,
+      .add 0 ⟨"E1", "E", ["3", "0", "2", "0"], "10"⟩, .query 0 "q", .remove 0 "E1",
       .query 0 "q", .remove 0 "R1", .derive 0 "q" [⟨"C1", "C", ["1", "0"], "1"⟩]] := by
   intro cfg
   simp only [RunOK, Op.admissible, uniqueNames]
@@ -48,21 +64,18 @@ example : let cfg : Config := ⟨[("a", .cprop), ("b", .lru)], ["a", "b"], true,
     built the circuit from the current elements; and every observation that is a function of the
     elements and of the node counters (`is_dangling`, `remove_dangling`, `unconnected_nodes`, ...)
     coincides with the one on the fresh circuit. -/
-theorem fresh_refinement_on (cfg : Config) (G : String → Bool) (hc : CfgOK cfg G)
-    (ops : List Op) (hr : RunOK cfg World.empty ops)
-    (i : Nat) (inst : Inst) (hi : (run cfg World.empty ops).insts[i]? = some inst) :
-    (∀ q, (∀ d ∈ cfg.readsOf q, G d = true) →
-      answer cfg (run cfg World.empty ops) i q = answer cfg (build inst.elts) 0 q) ∧
+theorem inv_implies_fresh (cfg : Config) (G : String → Bool) (hc : CfgOK cfg G) (w : World) (hinv : Inv cfg G w)
+    (i : Nat) (inst : Inst) (hi : w.insts[i]? = some inst) :
+    (∀ q, (∀ d ∈ cfg.readsOf q, G d = true) → answer cfg w i q = answer cfg (build inst.elts) 0 q) ∧
     (∀ {α : Type} (f : List Elt → (String → Nat) → (String → Nat) → α),
       structural f inst = structural f ⟨inst.elts, buildTab inst.elts, []⟩) := by
-  have hinv := Cache.inv_run hc ops (inv_empty (cfg := cfg) (G := G)) hr
   obtain ⟨htab, hu⟩ := hinv.tab i inst hi
   refine ⟨?_, ?_⟩
   · intro q hq
-    have h1 := (readSlots_spec hc (cfg.readsOf q) hinv i).2.2.2 inst hi hq
-    have h2 := (readSlots_spec hc (cfg.readsOf q) (inv_build (cfg := cfg) (G := G) inst.elts hu) 0).2.2.2
+    have h1 := (query_spec hc hinv i q).2.2.2 inst hi hq
+    have h2 := (query_spec hc (inv_build (cfg := cfg) (G := G) inst.elts hu) 0 q).2.2.2
       ⟨inst.elts, buildTab inst.elts, []⟩ (by simp [build]) hq
-    simp only [answer, query]
+    simp only [answer]
     rw [h1, h2]
   · intro α f
     have hc1 : countOf inst.tab = countOf (buildTab inst.elts) := by
@@ -71,9 +84,19 @@ theorem fresh_refinement_on (cfg : Config) (G : String → Bool) (hc : CfgOK cfg
       funext n; rw [(htab n).2, buildTab_deg]
     simp only [structural, hc1, hd1]
 
+theorem fresh_refinement_on (cfg : Config) (G : String → Bool) (hc : CfgOK cfg G)
+    (ops : List Op) (hr : RunOK cfg World.empty ops)
+    (i : Nat) (inst : Inst) (hi : (run cfg World.empty ops).insts[i]? = some inst) :
+    (∀ q, (∀ d ∈ cfg.readsOf q, G d = true) →
+      answer cfg (run cfg World.empty ops) i q = answer cfg (build inst.elts) 0 q) ∧
+    (∀ {α : Type} (f : List Elt → (String → Nat) → (String → Nat) → α),
+      structural f inst = structural f ⟨inst.elts, buildTab inst.elts, []⟩) :=
+  inv_implies_fresh cfg G hc _ (Cache.inv_run hc ops (inv_empty (cfg := cfg) (G := G)) hr) i inst hi
+
 /-- FULL PROPERTY.  If `_invalidate` clears every memoised member, `add` (for a single line AND for
-    a multi-line string) and `remove` call it, and
-    overriding a name detaches the old component, then for every history of public operations that
+    a multi-line string) and `remove` call it,
+    overriding a name detaches the old component, `remove` and the override detach the component from
+    EVERY node it has (components of any arity), and no read-only member mutates a cached object, then for every history of public operations that
     raises no exception, every query on every instance answers as on a freshly built circuit.
     (The three hypotheses are decidable facts about the generated configuration; they are
     instantiated in Props/C16Full.lean, which builds iff lcapy's source satisfies them.) -/
@@ -81,29 +104,43 @@ theorem fresh_refinement (cfg : Config)
     (hclr : ∀ p ∈ cfg.memoised, cfg.isCleared p.1 = true)
     (hadd : cfg.addInvalidates = true) (hmulti : cfg.addMultiInvalidates = true)
     (hrem : cfg.removeInvalidates = true) (hdet : cfg.overrideDetaches = true)
+    (hrsel : cfg.removeSel = .all) (hosel : cfg.overrideSel = .all) (hdmg : cfg.damages = [])
     (ops : List Op) (hpub : ∀ op ∈ ops, op.isPublic) (hok : NoRaise cfg World.empty ops)
     (i : Nat) (inst : Inst) (hi : (run cfg World.empty ops).insts[i]? = some inst) :
     (∀ q, answer cfg (run cfg World.empty ops) i q = answer cfg (build inst.elts) 0 q) ∧
     (∀ {α : Type} (f : List Elt → (String → Nat) → (String → Nat) → α),
       structural f inst = structural f ⟨inst.elts, buildTab inst.elts, []⟩) := by
   have hc : CfgOK cfg (fun _ => true) := by
-    refine ⟨?_, fun _ _ _ _ => rfl⟩
+    refine ⟨?_, fun _ _ _ _ => rfl, by rw [hdmg]; intro p hp; cases hp⟩
     intro s _ hk
     cases hk' : cfg.kindOf s with
     | none => simp [hk'] at hk
     | some k => exact hclr (s, k) (lookup_mem _ _ _ hk')
   obtain ⟨h1, h2⟩ := fresh_refinement_on cfg (fun _ => true) hc ops
-    (runOK_of_flags cfg hadd hmulti hrem hdet ops _ hpub hok) i inst hi
+    (runOK_of_flags cfg hadd hmulti hrem hdet hrsel hosel ops _ hpub hok) i inst hi
   exact ⟨fun q => h1 q (fun _ _ => rfl), h2⟩
+
+/-- ... and one with a slot of every kind -/
+def exCfg3 : Config where
+  memoised := [("a", .cprop), ("b", .lru), ("c", .hasattr)]
+  cleared := ["a", "b", "c"]
+  addInvalidates := true
+  addMultiInvalidates := true
+  removeInvalidates := true
+  initInvalidates := true
+  overrideDetaches := true
+  keepConnectedNode := true
+  deps := [("b", ["a", "c"])]
+  reads := [("q", ["a", "c", "b"])]
+  spawns := ["b"]
 
 /-- the hypotheses of `fresh_refinement` are satisfiable by a configuration with live memo slots of
     every kind and a history with an override, queries, a removal, a failing-free copy and work on
     the copy -/
-example : let cfg : Config := ⟨[("a", .cprop), ("b", .lru), ("c", .hasattr)], ["a", "b", "c"], true, true, true, true, true, true,
-      [("b", ["a", "c"])], [("q", ["a", "c", "b"])], ["b"]⟩
+example : let cfg : Config := exCfg3
     let ops : List Op := [.new, .add 0 ⟨"R1", "R", ["1", "0"], "1"⟩, .query 0 "q", .add 0 ⟨"R1", "R", ["1", "2"], "5"⟩,
       .query 0 "q", .derive 0 "q" [⟨"R1", "R", ["1", "2"], "5"⟩], .add 1 ⟨"C1", "C", ["2", "0"], "1"⟩, .query 1 "q",
-      .remove 0 "R1", .addLines 0 [⟨"R3", "R", ["2", "3"], "1"⟩, ⟨"R4", "R", ["3", "0"], "3"⟩]]
+      .remove 0 "R1", .addLines 0 [⟨"R3", "R", ["2", "3"], "1"⟩, ⟨"TF1", "TF", ["3", "0", "4", "0"], "3"⟩]]
     (∀ p ∈ cfg.memoised, cfg.isCleared p.1 = true) ∧ (∀ op ∈ ops, op.isPublic) ∧ NoRaise cfg World.empty ops ∧
     (run cfg World.empty ops).insts.length = 2 := by
   intro cfg ops
@@ -125,22 +162,25 @@ theorem fresh_refinement_partial (cfg : Config) (G : String → Bool) (hG : cfgO
     answer cfg (run cfg World.empty ops) i q = answer cfg (build inst.elts) 0 q := by
   have hc : CfgOK cfg G := by
     simp only [cfgOKb, Bool.and_eq_true, List.all_eq_true] at hG
-    refine ⟨?_, ?_⟩
+    refine ⟨?_, ?_, ?_⟩
     · intro s hs hk
       cases hk' : cfg.kindOf s with
       | none => simp [hk'] at hk
       | some k =>
-        have := hG.1 (s, k) (lookup_mem _ _ _ hk')
+        have := hG.1.1 (s, k) (lookup_mem _ _ _ hk')
         simpa [hs] using this
     · intro s hs d hd
       unfold Config.depsOf at hd
       cases hl : cfg.deps.lookup s with
       | none => simp [hl] at hd
       | some ds =>
-        have := hG.2 (s, ds) (lookup_mem _ _ _ hl)
+        have := hG.1.2 (s, ds) (lookup_mem _ _ _ hl)
         simp [hl] at hd
         simp [hs] at this
         exact this d hd
+    · intro p hp
+      have := hG.2 p hp
+      simpa using this
   exact (fresh_refinement_on cfg G hc ops hr i inst hi).1 q hq
 
 /-! ## isolation -/
@@ -155,8 +195,9 @@ theorem copy_isolated (cfg : Config) (w : World) (op : Op) (k : Nat) (hk : k < w
   | addRaw i e => exact addRaw_other _ _ _ _ (fun h => ht (by simp [Op.target, h]))
   | addLines i es => exact addLines_other _ _ _ _ (fun h => ht (by simp [Op.target, h]))
   | remove i nm => exact remove_other _ _ _ _ (fun h => ht (by simp [Op.target, h]))
-  | query i q => exact readSlots_other _ _ _ _ (fun h => ht (by simp [Op.target, h]))
+  | query i q => exact query_other _ _ _ _ (fun h => ht (by simp [Op.target, h]))
   | derive i pre es => exact derive_other _ _ _ _ _ (fun h => ht (by simp [Op.target, h])) hk
+  | addFail i es e late => exact addFail_other _ _ _ _ _ _ (fun h => ht (by simp [Op.target, h]))
 
 /-- deriving a circuit (copy, subs, kill, select, simplify, ...) leaves the source's elements and
     node table unchanged, whatever is later done to the derived instance (by `copy_isolated`) -/
@@ -185,10 +226,10 @@ theorem remove_known_completes (cfg : Config) (hk : cfg.keepConnectedNode = true
   simp only [hi, he, hk]
   by_cases hr : cfg.removeInvalidates = true
   · simp only [hr, if_true, invalidate, hi, List.getElem?_set, hlt]
-    obtain ⟨t', ht'⟩ := detachAll_total e.nodes inst.tab e.counted
+    obtain ⟨t', ht'⟩ := detachAll_total (cfg.removeSel.pick e.nodes) inst.tab e.counted
     simp [ht']
   · have hr' : cfg.removeInvalidates = false := by simpa using hr
-    obtain ⟨t', ht'⟩ := detachAll_total e.nodes inst.tab e.counted
+    obtain ⟨t', ht'⟩ := detachAll_total (cfg.removeSel.pick e.nodes) inst.tab e.counted
     simp [hr', hi, ht']
 
 /-! ## transformer memo tables -/
